@@ -37,7 +37,7 @@ Walk(k, s, nv) ==
        IN Walk(k + 1, r.st, r.nav)
 
 Check ==
-  LET s0 == Start(x, <<>>, <<"lines", Pg.init>>)
+  LET s0 == Start(x, Pg.ord, <<>>, <<"lines", Pg.init>>)
       r == Walk(0, s0, StartNav(x, Pg.ord, tree, s0))
   IN r = <<>> \/ PrintT(<<r[1], t, i, r[2], r[3], r[4]>>)
 All == i = 0 \/ Check
